@@ -15,6 +15,7 @@ let props : (string * (module Frame.PROP)) list = [
   ("C14", (module C14));
   ("C15", (module C15));
   ("C16", (module C16));
+  ("C17", (module C17));
   ("C18", (module C18));
   ("C20", (module C20));
 ]
